@@ -77,6 +77,67 @@ pub fn kind(n: &RefNode) -> String {
     format!("{}", n)
 }
 
+/// CamelCase -> snake_case ("JoinAny" -> "join_any", "Unique0" -> "unique0")
+pub fn snake(v: &str) -> String {
+    let mut out = String::new();
+    for (i, c) in v.chars().enumerate() {
+        if c.is_ascii_uppercase() {
+            if i > 0 {
+                out.push('_');
+            }
+            out.push(c.to_ascii_lowercase());
+        } else {
+            out.push(c);
+        }
+    }
+    out
+}
+
+/// Enum nodes whose whole content is one keyword: (node kind, variant name, keyword text, offset).
+/// The variant is read from the node's Debug form ("DataType(Chandle(Keyword {…").
+pub fn keyword_variants<'a>(tree: &'a SyntaxTree, text: &'a str) -> Vec<(String, String, &'a str, usize)> {
+    let mut out = Vec::new();
+    for n in tree {
+        if matches!(n, RefNode::Keyword(_) | RefNode::Locate(_) | RefNode::WhiteSpace(_)) {
+            continue;
+        }
+        // pattern: Enter(n) Enter(Keyword) … Leave(Keyword) Leave(n)
+        let mut ev = n.clone().into_iter().event();
+        let _ = ev.next();
+        let kw = match ev.next() {
+            Some(NodeEvent::Enter(RefNode::Keyword(k))) => k,
+            _ => continue,
+        };
+        let mut depth = 1usize;
+        let mut only = false;
+        while let Some(e) = ev.next() {
+            match e {
+                NodeEvent::Enter(_) => depth += 1,
+                NodeEvent::Leave(_) => {
+                    depth -= 1;
+                    if depth == 0 {
+                        only = matches!(ev.next(), Some(NodeEvent::Leave(_))) && ev.next().is_none();
+                        break;
+                    }
+                }
+            }
+        }
+        if !only {
+            continue;
+        }
+        let dbg = format!("{:?}", n);
+        // "Kind(Variant(Keyword" : an enum variant wrapping just the keyword
+        let mut parts = dbg.splitn(3, '(');
+        let (_kind, variant, rest) = (parts.next().unwrap_or(""), parts.next().unwrap_or(""), parts.next().unwrap_or(""));
+        if !rest.starts_with("Keyword") || variant.is_empty() || !variant.chars().all(|c| c.is_ascii_alphanumeric()) {
+            continue;
+        }
+        let l = &kw.nodes.0;
+        out.push((kind(&n), variant.to_string(), &text[l.offset..l.offset + l.len], l.offset));
+    }
+    out
+}
+
 pub fn clip(s: &str, n: usize) -> String {
     if s.len() <= n {
         s.to_string()
